@@ -228,6 +228,7 @@ func main() {
 			spec.run(c)
 			upgradeByInlining(c, spec)
 			runDepClosure(c)
+			runLateGuard(c)
 			if !*noFix {
 				runFixtures(c, spec)
 			}
